@@ -113,10 +113,27 @@ struct Conn {
         streamNo++;
     }
 
-    void feed(const QByteArray &bytes)
+    void feed(const QByteArray &bytesIn)
     {
+        QByteArray bytes = bytesIn;
         rxBytes += bytes.size();
         if (tlsHandshaking) return;
+        // the client opens a new stream whenever it wants to (after TLS, after authentication, after a new header from a hostile
+        // server): restart the reader where its header begins
+        if (depth >= 1 || reader.error() != QXmlStreamReader::NoError) {
+            int at = bytes.indexOf("<?xml");
+            if (at < 0) at = bytes.indexOf("<stream:stream");
+            if (at >= 0) {
+                if (at > 0) feed2(bytes.left(at));
+                resetStream();
+                bytes = bytes.mid(at);
+            }
+        }
+        feed2(bytes);
+    }
+
+    void feed2(const QByteArray &bytes)
+    {
         reader.addData(bytes);
         while (!reader.atEnd()) {
             auto tok = reader.readNext();
@@ -589,6 +606,24 @@ struct Case {
             } else {
                 cn->send(data);
             }
+            bool tlsRequested = true;
+            if (st.contains("ifRequested")) {
+                tlsRequested = false;
+                for (const auto &o : cn->queue)
+                    if (o["tag"].toString() == st["ifRequested"].toString()) tlsRequested = true;
+            }
+            if (st["startTls"].toBool() && !cn->encrypted && tlsRequested) {
+                // <proceed/> has just been written: switch to TLS before the ClientHello can be read as XML
+                cn->queue.clear();
+                cn->tlsHandshaking = true;
+                cn->sock->setLocalCertificate(QSslCertificate(g_certPem));
+                cn->sock->setPrivateKey(QSslKey(g_keyPem, QSsl::Rsa));
+                cn->sock->setPeerVerifyMode(QSslSocket::VerifyNone);
+                cn->sock->startServerEncryption();
+                bool ok = spinUntil([&] { return cn->encrypted || cn->closed; }, timeout);
+                if (!ok || !cn->encrypted) J({ { "ev", "await_failed" }, { "step", idx }, { "tag", "tls" }, { "closed", cn->closed }, { "timeout", !ok } });
+                else spinUntil([&] { return !cn->queue.isEmpty() || cn->closed; }, 500);
+            }
             return true;
         }
         if (op == u"await") {  // server waits for an element from the client
@@ -642,6 +677,31 @@ struct Case {
             bool ok = spinUntil([&] { return cn->encrypted || cn->closed; }, timeout);
             if (!ok || !cn->encrypted) J({ { "ev", "await_failed" }, { "step", idx }, { "tag", "tls" }, { "closed", cn->closed }, { "timeout", !ok } });
             return cn->encrypted;
+        }
+        if (op == u"starttls_if_requested") {
+            // server side of STARTTLS, only when the client has asked for it (otherwise the step is a no-op)
+            auto &c = cli(st);
+            auto *cn = c.current();
+            if (!cn || cn->closed || cn->encrypted) return true;
+            bool asked = false;
+            for (const auto &o : cn->queue) {
+                if (o["tag"].toString() == u"starttls") asked = true;
+            }
+            if (!asked) {
+                J({ { "ev", "step_skipped" }, { "step", idx }, { "why", "client did not request STARTTLS" } });
+                return true;
+            }
+            cn->queue.clear();
+            cn->tlsHandshaking = true;
+            cn->sock->setLocalCertificate(QSslCertificate(g_certPem));
+            cn->sock->setPrivateKey(QSslKey(g_keyPem, QSsl::Rsa));
+            cn->sock->setPeerVerifyMode(QSslSocket::VerifyNone);
+            cn->sock->startServerEncryption();
+            bool ok = spinUntil([&] { return cn->encrypted || cn->closed; }, timeout);
+            if (!ok || !cn->encrypted) J({ { "ev", "await_failed" }, { "step", idx }, { "tag", "tls" }, { "closed", cn->closed }, { "timeout", !ok } });
+            // the client opens a new stream over TLS
+            spinUntil([&] { return !cn->queue.isEmpty() || cn->closed; }, 500);
+            return true;
         }
         if (op == u"cut") {  // server drops the TCP connection
             auto &c = cli(st);
